@@ -62,12 +62,14 @@ def mk(kind: int, i: int, s: str, b: bool):
     return pick(FLOATS, i)
 
 
-def run_choice(rules, data, default=None):
+def run_choice(rules, data, default=None, input_path=None):
     """Run the real engine on a machine whose start state is this Choice state.
     Returns ("next", name) | ("failed", error) | ("other", log)."""
     state = {"Type": "Choice", "Choices": rules}
     if default is not None:
         state["Default"] = default
+    if input_path is not None:
+        state["InputPath"] = input_path
     asl = {"StartAt": "C", "States": {"C": state, "A": {"Type": "Succeed"}, "B": {"Type": "Succeed"}, "D": {"Type": "Succeed"}}}
     eng, log = stubs.make_engine(asl)
     ev = stubs.running_event("C", data, eng=eng)
@@ -398,3 +400,31 @@ def repeated_variable(o1: int, o2: int, vk: int, vb: bool, shape: int) -> bool:
 
 from vf.api import variants
 variants(globals(), repeated_variable, [("_seq", "shape == 0"), ("_and", "shape == 1"), ("_or_not", "shape == 2")])
+
+
+
+@condition(timeout={"quick": 120, "thorough": 300}, functions=["asl_state_Choice > choose (the *Path operand and the Variable are both read from the state's effective input)"])
+def path_operand_effective_input(op: int, a: int, b: int, outer: int, use_ip: bool) -> bool:
+    """
+    requires: 0 <= op < 5 and 0 <= a <= 2 and 0 <= b <= 2 and 0 <= outer <= 3
+    ensures: _
+    """
+    # Choice with InputPath $.order: Variable $.paid and the operand path $.due are both members of the selected
+    # object; the raw input has a member `due` of its own (or none when outer == 3) that must not be looked at.
+    name = pick(["NumericEqualsPath", "NumericGreaterThanPath", "NumericGreaterThanEqualsPath", "NumericLessThanPath", "NumericLessThanEqualsPath"], op)
+    order = {"paid": a, "due": b}
+    data = {"order": order, "paid": 99}
+    if outer < 3:
+        data["due"] = outer
+    rules = [{"Variable": "$.paid", name: "$.due", "Next": "A"}]
+    if use_ip:
+        got = run_choice(rules, data, "B", input_path="$.order")
+        x, y = a, b
+    else:
+        got = run_choice(rules, data, "B")
+        if outer == 3:
+            return got[0] in ("next", "failed")          # operand path matches nothing in the raw input: no value comparison can match; the rule is skipped or the state fails
+        x, y = 99, outer
+    truth = {"NumericEqualsPath": x == y, "NumericGreaterThanPath": x > y, "NumericGreaterThanEqualsPath": x >= y,
+             "NumericLessThanPath": x < y, "NumericLessThanEqualsPath": x <= y}[name]
+    return got == (("next", "A") if truth else ("next", "B"))
